@@ -176,6 +176,9 @@ func (v *value) updateTimestamp() error {
 	if min > max || min < 0 {
 		return fmt.Errorf("invalid delta_min/delta_max on timestamp for %q", v.v)
 	}
+	if max-min+1 <= 0 {
+		return fmt.Errorf("delta_max - delta_min overflows int64 on timestamp for %q", v.v)
+	}
 	v.v.Timestamp.Timestamp = t + v.r.Int63n(max-min+1) + min
 	return nil
 }
@@ -203,6 +206,9 @@ func (v *value) updateIntValue() error {
 			}
 			left, right = rng.GetDeltaMin(), rng.GetDeltaMax()
 			newval = val.Value
+		}
+		if right-left+1 <= 0 {
+			return fmt.Errorf("range width overflows int64 in IntRange for %q", v.v)
 		}
 
 		newval += v.r.Int63n(right-left+1) + left
@@ -382,6 +388,9 @@ func (v *value) updateUintValue() error {
 			}
 			left, right = rng.GetDeltaMin(), rng.GetDeltaMax()
 			newval = val.Value
+		}
+		if right-left+1 <= 0 {
+			return fmt.Errorf("range width overflows int64 in UintRange for %q", v.v)
 		}
 		tmpVal := int64(newval) + v.r.Int63n(right-left+1) + left
 		if tmpVal < 0 {
